@@ -409,6 +409,8 @@ pub fn ntru_gen(
     loop {
         let f = gen_poly(n, rng);
         let g = gen_poly(n, rng);
+        #[cfg(feature = "verif-hooks")]
+        crate::verif_hooks::trace_i16s("keygen.drawn", &f.coefficients, &g.coefficients);
 
         // the secret key format stores f and g in fixed-width fields
         let fg_limit = 1i16 << (max_fg_bits(n) - 1);
@@ -418,6 +420,8 @@ pub fn ntru_gen(
             .chain(g.coefficients.iter())
             .any(|c| c.abs() >= fg_limit)
         {
+            #[cfg(feature = "verif-hooks")]
+            crate::verif_hooks::trace_tag("keygen.reject.range_fg");
             continue;
         }
         #[cfg(feature = "verif-hooks")]
@@ -448,6 +452,18 @@ pub fn ntru_gen(
                 .chain(capital_g.coefficients.iter())
                 .any(|c| c.abs() > 127)
             {
+                #[cfg(feature = "verif-hooks")]
+                crate::verif_hooks::emit(
+                    "keygen.reject.range_capital",
+                    capital_f
+                        .coefficients
+                        .iter()
+                        .chain(capital_g.coefficients.iter())
+                        .map(|&i| i as i64)
+                        .collect(),
+                    vec![],
+                    vec![],
+                );
                 continue;
             }
             #[cfg(feature = "verif-hooks")]
